@@ -62,7 +62,8 @@ def run(prop, tier, cases, run_case, rule, replay=None, sig_extra=None, nontrivi
                     continue
                 if detail.startswith("exception:"):
                     owner = "C14"
-                if owner != prop and not (prop == "C14" and detail.startswith("exception:")):
+                c14_too = detail.startswith("exception:") or detail == "itf:operand-changed-by-failed-call"
+                if owner != prop and not (prop == "C14" and c14_too):
                     counts["other-property:" + str(owner)] = counts.get("other-property:" + str(owner), 0) + 1
                     continue
                 if not ops.reconfirm_event(ev, grp, detail):
